@@ -4,6 +4,7 @@ the Lean model (`mmodel runner`).
 
 program = {"fns": {id: {"explicit": bool, "stmts": [...], "raise": [mod, rem, cls, msg], "const": int}}}
 stmt    = ["call", g, off, ctx, ignore, prevent, catch, hidden, guard] | ["batch", g, [offs], ctx, ignore, prevent, raise_first, hidden, guard]
+          (ignore: bit 0 = ignore_result(), bit 1 = force_local() — the latter has no effect on a local runner and is not sent to the model)
           | ["res", h]            ctx = "i" (inherit) | int (0 = with_context_args({}));  guard = [m, r]: only when a % m == r ([0,0] = always)
 Functions only call functions with a smaller id (call DAG), so every run terminates.
 """
@@ -115,7 +116,7 @@ def gen_program(rng, nfns=None, ctx_rate=0.25, exc_rate=0.3, batch_rate=0.25, hi
                 ctx = "i"
                 if rng.random() < ctx_rate:
                     ctx = rng.choice([0, 1, 2])
-                ign = rng.random() < flag_rate
+                ign = int(rng.random() < flag_rate) + (2 if rng.random() < flag_rate else 0)
                 prev = rng.random() < prevent_rate
                 hidden = rng.random() < hidden_rate
                 guard = [2, rng.choice([0, 1])] if rng.random() < guard_rate else [0, 0]
@@ -165,9 +166,9 @@ def model_lines(prog):
         lines.append("fn %d %d %d %d %d %d %d" % (f, int(d["explicit"]), r[0], r[1], r[2], r[3], d["const"]))
         for s in d["stmts"]:
             if s[0] == "call":
-                lines.append("st %d call %d %d %s %d %d %d %d %d" % (f, s[1], s[2], s[3], int(s[4]), int(s[5]), int(s[6]), s[8][0], s[8][1]))
+                lines.append("st %d call %d %d %s %d %d %d %d %d" % (f, s[1], s[2], s[3], int(s[4]) & 1, int(s[5]), int(s[6]), s[8][0], s[8][1]))
             elif s[0] == "batch":
-                lines.append("st %d batch %d %s %s %d %d %d %d %d" % (f, s[1], ",".join(map(str, s[2])) or "-", s[3], int(s[4]),
+                lines.append("st %d batch %d %s %s %d %d %d %d %d" % (f, s[1], ",".join(map(str, s[2])) or "-", s[3], int(s[4]) & 1,
                                                                      int(s[5]), int(s[6]), s[8][0], s[8][1]))
             else:
                 lines.append("st %d res %d" % (f, s[1]))
@@ -184,8 +185,10 @@ def _target(g, ctx, ign, prev, hidden):
     t = 'globals()["f%d"]' % g if hidden else "f%d" % g
     if ctx != "i":
         t += ".with_context_args(%s)" % ("{}" if ctx == 0 else '{"k": %d}' % ctx)
-    if ign:
+    if int(ign) & 1:
         t += ".ignore_result()"
+    if int(ign) & 2:
+        t += ".force_local()"
     if prev:
         t += ".with_prevent_further_calls(True)"
     return t
@@ -323,8 +326,10 @@ class RunWorld:
         fn = getattr(self.mod, "f%d" % f)
         if ctx != "i":
             fn = fn.with_context_args({} if ctx == 0 else {"k": ctx})
-        if ign:
+        if int(ign) & 1:
             fn = fn.ignore_result()
+        if int(ign) & 2:
+            fn = fn.force_local()
         if prev:
             fn = fn.with_prevent_further_calls(True)
         return fn
@@ -349,7 +354,7 @@ class RunWorld:
             except Exception as e:
                 out = show_exc(e)
             real = out + " execs=" + self.show_trace()
-            line = "call %d %d %s %d %d" % (f, a, ctx, int(ign), int(prev))
+            line = "call %d %d %s %d %d" % (f, a, ctx, int(ign) & 1, int(prev))
         elif k == "batch":
             _, f, args, ctx, ign, prev, rf = op
             try:
@@ -358,7 +363,7 @@ class RunWorld:
             except Exception as e:
                 out = "raised " + show_exc(e)
             real = out + " execs=" + self.show_trace()
-            line = "batch %d %s %s %d %d %d" % (f, ",".join(map(str, args)) or "-", ctx, int(ign), int(prev), int(rf))
+            line = "batch %d %s %s %d %d %d" % (f, ",".join(map(str, args)) or "-", ctx, int(ign) & 1, int(prev), int(rf))
         elif k == "forget":
             _, f, a, c = op
             self.fn(f, c).forget(a)
